@@ -95,6 +95,12 @@ fn classify(msg: &str) -> String {
     if msg.contains("Failed to remove stale lock file") {
         return "io-error:remove-stale".to_string();
     }
+    if msg.contains("Failed to remove unparsable lock file") {
+        return "io-error:remove-unparsable".to_string();
+    }
+    if msg.contains("Failed to remove empty lock file") {
+        return "io-error:remove-empty".to_string();
+    }
     if msg.contains("Failed to remove orphaned lock file") {
         return "io-error:remove-orphaned".to_string();
     }
@@ -173,6 +179,12 @@ fn lockwit(fields: &[&str]) -> String {
         "stale_live_evicted" | "drop_removes_foreign" => {
             let Outcome::Acquired(a) = try_acquire(&dir) else { return "first-acquire-failed".to_string() };
             fs::write(lock_path(&dir), format!("{}:{}", me, now_secs() - 301)).unwrap();
+            // both "processes" have this process's pid: make sure the second lock at least gets another
+            // timestamp than the first, as two real processes would differ in the pid
+            let t_first = now_secs();
+            while now_secs() == t_first {
+                std::thread::sleep(std::time::Duration::from_millis(20));
+            }
             let t0 = now_secs();
             match try_acquire(&dir) {
                 Outcome::Acquired(b) => {
